@@ -110,7 +110,7 @@ REC_MODELS = {
     r"^Cell::get$": m_cell_get,
     r"^Cell::set$": m_cell_set,
     r"^Option::take$": m_option_take,
-    r"NonNull::new_unchecked$|NonNull::as_ptr$|NonNull::as_ref$": m_ident,
+    r"NonNull::new_unchecked$|NonNull::as_ptr$|NonNull::as_ref$|^<NonNull as From>::from$|NonNull::from$|NonNull::from_ref$|NonNull::from_mut$": m_ident,
     r"^<dyn Recorder as Recorder>::\w+$|^<dyn recorder::Recorder as recorder::Recorder>::\w+$": m_dispatch,
     r"(^|::)nd_bool$": m_nd_bool,
     r"(^|::)nd_panic$": lambda *a: Unwind(),
